@@ -372,7 +372,7 @@ def run_chunk(binary, cfgname, seed, lo, hi, extra, workdir, tag, cpu, triage_bu
                 res.fail_keys[k] = res.fail_keys.get(k, 0) + v
         if rc == 0 and done is not None:
             break
-        if rc == 76 and done is not None:
+        if rc in (76, 77) and done is not None and "LeakSanitizer" in err:
             # LeakSanitizer at exit, after all cases ran: not attributable to a case by itself
             res.deaths.append(Death(-1, signature(err), err[-8000:], cfgname, extra))
             break
